@@ -68,8 +68,10 @@ def make_trace(tid, rng, nops=30, **opt):
     """Random real-geometry image + random op sequence on the real object -> trace dict."""
     bs = rng.choice([1 << 20, 1 << 20, 65536, 4096, 2 << 20, 12288, 24576, 3 << 20])   # incl. sizes that are not a power of two
     n = rng.randrange(2, 40 if bs <= (1 << 20) else 12)
-    if opt.get("many"):  # a block map of several hundred entries
+    if opt.get("many") == "mid":  # a block map of several hundred entries
         bs, n = rng.choice([4096, 65536]), rng.randrange(200, 700)
+    elif opt.get("many"):  # a block map of several thousand entries
+        bs, n = rng.choice([4096, 1024, 1536]), rng.choice([rng.randrange(1100, 2500), rng.randrange(4200, 9000), rng.randrange(16500, 20000)])
     npos = n + rng.randrange(0, 3)
     pos = list(range(npos))
     rng.shuffle(pos)
@@ -93,6 +95,14 @@ def make_trace(tid, rng, nops=30, **opt):
             "image_type": prof["hdr"]["image_type"]}
 
 
+def trace_for(tid, r, thorough):
+    """The history behind trace `tid` (run and --replay build the same one)."""
+    if tid % 5 == 0:   # a chain of VDI parents; the session also drives the ancestors' own stream objects
+        import importlib
+        return importlib.import_module("props.c07").trace_vdi_chain(tid, r, 40 if thorough else 25)
+    return make_trace(tid, r, 40 if thorough else 25, many=diskprop.many_of(tid))
+
+
 def _attrs(img, prof):
     return {"block_size": prof["block_size"], "parent": img["parent"]}
 
@@ -112,15 +122,7 @@ def run(ctx):
     diskprop.replay_states(ctx, "vdi", sts, PROFILES_THOROUGH if thorough else PROFILES_QUICK, build,
                            attrs_of=_attrs, cap=80 if thorough else 48)
     # 3. B: traces from the real code validated by TLC
-    import importlib
-    c07 = importlib.import_module("props.c07")
-
-    def mk(tid, r):
-        if tid % 5 == 0:   # a chain of VDI parents; the session also drives the ancestors' own stream objects
-            return c07.trace_vdi_chain(tid, r, 40 if thorough else 25)
-        return make_trace(tid, r, 40 if thorough else 25, many=("mid" if tid % 8 == 0 else None))
-
-    diskprop.traces(ctx, "vdi", mk, 400 if thorough else 80, "TraceDisk", "TraceDisk.cfg",
+    diskprop.traces(ctx, "vdi", lambda tid, r: trace_for(tid, r, thorough), 400 if thorough else 80, "TraceDisk", "TraceDisk.cfg",
                     lambda t: {"format": "vdi", "block_size": t["geo"]["cellB"], "parent": t["img"]["parent"] if "img" in t else True, "chain": t["fmt"] == "chain"})
 
 
@@ -134,13 +136,7 @@ def replay(ctx, body):
     if d.get("kind") in ("trace", "trace-gen"):
         tid = d.get("tid") or d["trace"]["tid"]
         from harness import tracecheck
-        rr = random.Random(body["seed"] * 9176 + tid)
-        nn = 40 if body.get("tier") == "thorough" else 25
-        if tid % 5 == 0:
-            import importlib
-            t = importlib.import_module("props.c07").trace_vdi_chain(tid, rr, nn)
-        else:
-            t = make_trace(tid, rr, nn, many=("mid" if tid % 8 == 0 else None))
+        t = trace_for(tid, random.Random(body["seed"] * 9176 + tid), body.get("tier") == "thorough")
         v, _ = tracecheck.validate("TraceDisk", "TraceDisk.cfg", [t])
         print(v)
         return v[tid][0] == "accept"
